@@ -179,7 +179,7 @@ func (w *Worker) callFn(fn *ssa.Function, args []value, pos token.Pos) value {
 
 func (w *Worker) callSSA(caller *frame, callpos token.Pos, fn *ssa.Function, args []value, env []value) value {
 	if fn.Parent() == nil {
-		if red, ok := w.eng.redirect[fn]; ok {
+		if red, ok := w.eng.redirect[fn]; ok && w.h.StubGroups[w.eng.redirectGroup[fn]] {
 			w.res.Stubs[fn.String()]++
 			fn = red
 		} else if in := w.intrinsicFor(fn); in != nil {
@@ -456,6 +456,20 @@ func (w *Worker) visitInstr(fr *frame, instr ssa.Instruction) continuation {
 
 	case *ssa.MakeSlice:
 		w.curPos = instr.Pos()
+		if w.allocLimit > 0 {
+			// harness-declared allocation bound (C19): a make() whose length can
+			// exceed it is a violation, with a model for the offending input
+			ct := fr.get(instr.Cap).(T)
+			over := w.tb.Ugt(ct, w.tb.Const(ct.W, uint64(w.allocLimit)))
+			if !over.IsFalse() && (over.IsTrue() || w.branch(over)) {
+				if w.live() {
+					if vec := w.modelVectorChecked(); vec != nil {
+						w.recordViolation("assert", "allocation out of proportion to the input", instr.Pos(), vec, "")
+					}
+				}
+				panic(pathEnd{kind: "violation"})
+			}
+		}
 		n := w.concreteLen(fr.get(instr.Len).(T), "make len")
 		c := w.concreteLen(fr.get(instr.Cap).(T), "make cap")
 		if n < 0 || c < n {
